@@ -2,8 +2,6 @@
 open Verdict
 
 let () =
-  (* make sure the handler modules are linked *)
-  ignore (D_bbc.hdr);
   let gen = Sys.argv.(1) in
   let ic = open_in Sys.argv.(2) in
   let nok = ref 0 and nmis = ref 0 and npf = ref 0 in
